@@ -78,7 +78,60 @@ def sameVal : GoVal → GoVal → Prop
     | GoVal.ptr k (some (.t x)), GoVal.ptr k' (some (.t y)) => k = k' ∧ x.sec = y.sec ∧ x.nsec = y.nsec
     | x, y => x = y
 
+/-- The domain of the delegated decoders for one attribute value: a time payload satisfies
+`TimeOk`. (No restriction on byte strings: a nil slice, by value or behind a non-nil pointer,
+is written as `""`.) -/
+def codecDom (c : Codecs) (v : GoVal) : Prop :=
+  ∀ k t, (v = .val k (.t t) ∨ v = .ptr k (some (.t t))) → c.TimeOk t
+
+/-- The fields of a relationship definition the library looks at when it marshals and
+unmarshals a resource (a wrapped struct's view has `fromType` / `fromOne` normalised and
+`toName` is not read on either side, so views and schema types are compared up to these). -/
+def relCore (rel : Rel) : GoString × Bool × GoString := (rel.fromName, rel.toOne, rel.toType)
+
 /-- all field names of a view, as the "all fields selected" list -/
 def allFields (r : ResView) : List GoString := r.attrs.keys ++ r.rels.keys
+
+/-! ### documents (C02) -/
+
+/-- What `encoding/json` decodes an error object written by `Error.MarshalJSON` to: every
+member it finds, the empty value for an absent member; the `links` map in the order of the
+object's members (sorted by key, as `encoding/json` writes maps). -/
+def errorOfJson (j : Json) : ErrorObj :=
+  { id := strOf (j.get? K.id), code := strOf (j.get? K.code), status := strOf (j.get? K.status),
+    title := strOf (j.get? K.title), detail := strOf (j.get? K.detail),
+    links := (membersOf (j.get? K.links)).map (fun p => (p.1, strOf (some p.2))),
+    source := membersOf (j.get? K.source), emeta := membersOf (j.get? K.kmeta) }
+
+/-- The representation of an error's `links` map that reading back produces: keys in
+ascending order (a Go map has no order; the model's list is compared in this canonical one). -/
+def linksSorted (e : ErrorObj) : Prop := e.links.Pairwise (fun a b => ¬ (b.1 < a.1))
+
+/-- one raw resource of a `data` / `included` array: an object decodes into the resource
+skeleton, anything else fails -/
+def resSkeOf (c : Codecs) (j : Json) : ResSke? := if j.isObj then some (skeletonOf c j) else none
+
+/-- the `data` member of a payload, by its first byte: null, one object, an array -/
+def dataSkeOf (c : Codecs) : Json → DataSke
+  | .null => .null
+  | .obj ms => .res (resSkeOf c (.obj ms))
+  | .arr l => .col (some (l.map (resSkeOf c)))
+  | _ => .other
+
+/-- The payload skeleton `encoding/json` produces from a document tree written by the
+model's marshaling (`Spec.documentTree`): the data member absent / null / one object / an
+array; the error objects; per included value whether it decodes into an Identifier and its
+resource skeleton; the top-level meta members. -/
+def docSkeletonOf (c : Codecs) (t : Json) : DocSke :=
+  { data := (match t.get? K.data with
+      | none => .absent
+      | some dj => dataSkeOf c dj),
+    errors := (match t.get? K.errors with
+      | some (.arr l) => l.map errorOfJson
+      | _ => []),
+    included := (match t.get? K.included with
+      | some (.arr l) => l.map (fun j => (j.isObj && (identOf j).isSome, resSkeOf c j))
+      | _ => []),
+    dmeta := membersOf (t.get? K.kmeta) }
 
 end Jsonapi.Spec
